@@ -41,6 +41,8 @@ class C02(Prop):
         "PrefVerif.C02Indif.minNumIndif_le_max",
         "PrefVerif.C02Indif.indif_bounds",
         "PrefVerif.C02Indif.isStrict_maxNumIndif",
+        "PrefVerif.C02Indif.indif_stats_of_votes",
+        "PrefVerif.C02Indif.indif_stats_regroup",
     ]
     rule = ("random histories of 1-8 operations mixing the four entry points and populate_IC/urn/IC_anon/mallows, "
             "strict/weak/partial votes with repeats within and across calls, numpy int ids; each history is replayed "
@@ -313,6 +315,15 @@ class C02(Prop):
         nalt = len(ms["specAlts"])
         want = {"max_num_indif": max(nind + [0]), "min_num_indif": min(nind + [nalt]),
                 "largest_indif": max(csz + [0]), "smallest_indif": min(csz + [nalt])}
+        # the Lean specification evaluator (statistics of the list of votes, C02Indif.indif_stats_of_votes)
+        # is the judge; the Python recomputation above only cross-checks it
+        for f, sk in (("max_num_indif", "specMaxNumIndif"), ("min_num_indif", "specMinNumIndif"),
+                      ("largest_indif", "specLargestIndif"), ("smallest_indif", "specSmallestIndif")):
+            if sk in ms:
+                if ms[sk] != want[f]:
+                    out.append(Problem("disagreement", case, f"after operation {i + 1}: Lean spec {sk}={ms[sk]} "
+                                       f"differs from the harness recomputation {want[f]}", "spec/indif_stats"))
+                want[f] = ms[sk]
         for f, mk in (("max_num_indif", "maxNumIndif"), ("min_num_indif", "minNumIndif"),
                       ("largest_indif", "largestIndif"), ("smallest_indif", "smallestIndif")):
             if st[f] != ("ok", want[f]):
